@@ -139,6 +139,33 @@ CHECKS = {
               "'no runnable process'); a real spawned run with os._exit(1) in a worker must end in an exception within a time bound."),
         note="in-process death = uncaught BaseException in the worker thread (exit code 1); the monitor pass is modelled as atomic",
         technique="TLA+ spec with fault actions + TLC; replay of outcomes into the real code; real fault-injection run"),
+    "C14": dict(
+        category="exploration", design_ref="DESIGN.md 4.14",
+        text=("Narrowed claim.  Exact mechanism: the column every count-min class and the heavy hitters assign to (key, row) is "
+              "validated against Hashes.tla (FastHash64(key, row) % width) for random keys x rows 0..7 x widths {4,16,32,128}; if it "
+              "holds the rows are FastHash64 under distinct seeds.  This stage never alarms alone; the deciding stage is a tolerant "
+              "acceptance test evaluated by TLC on recorded data: joint column counts of every pair of rows within [1/2, 2] of "
+              "expectation and a Zipf stream inside the documented exp(-depth) bound."),
+        note="a statistical acceptance test (>= 8 sigma margins) wrapped around an exact mechanism check; independence of FastHash64 under distinct seeds is an external fact",
+        technique="trace validation of the placement equation against the TLA+ hash specification; tolerant counting predicate evaluated by TLC"),
+    "C16": dict(
+        category="model_checking", design_ref="DESIGN.md 4.16",
+        text=("SharedMem.tla: one owner, up to two attached views, operations through any live handle, all deletion orders; TLC checks "
+              "OneState, OwnerUnlinks, ViewNeverUnlinks, AttachFailsAfterUnlink and the layout identities.  Behaviours of the explored "
+              "graph are replayed on real shared-memory sketches of all five classes with odd byte sizes (attach_shared_memory and "
+              "attach_existing_shm), an in-memory twin receiving the same operations; after every step every live handle and the twin "
+              "are compared and /dev/shm is inspected."),
+        note="log sketches stay inside the reserved range (deterministic); state equality through digests",
+        technique="TLA+ spec + TLC; replay of specification behaviours on real shared memory"),
+    "C17": dict(
+        category="model_checking", design_ref="DESIGN.md 4.17",
+        text=("HLLQuery.tla states the regime decision (linear counting / bias-corrected with zero registers / bias-corrected up to 5m / "
+              "raw) and the estimate; TLC checks the shipped tables (strictly increasing, raw[1]-bias[1] = threshold) and validates one "
+              "recorded query() per register array: regime decided exactly, interpolation segment located in the tables, answer within "
+              "2^-30 relative.  Arrays from real key sets and synthetic arrays hit all 40 regime x precision cells and both sides of "
+              "both boundaries (a missing cell fails the run as vacuous)."),
+        note="real-valued ingredients (ln, exact rational raw estimate and interpolated bias) are computed by the harness with CPython math/fractions and enter TLC as exact integers",
+        technique="TLA+ decision structure + trace validation of recorded evaluations (one per transition of the case analysis)"),
 }
 
 NOT_APPLICABLE = {
